@@ -16,7 +16,8 @@ import (
 // and after flush/merge) for the stream engine.
 
 type sOp struct {
-	Kind  string  `json:"kind"` // write | flush | merge | query
+	Kind  string  `json:"kind"`             // write | wide | flush | merge | query
+	WideN int     `json:"wide_n,omitempty"` // wide: one element for each of WideN further series (svc index 100..)
 	Elems []sElem `json:"elems,omitempty"`
 	Pick  []int   `json:"pick,omitempty"`
 	Query *sQuery `json:"query,omitempty"`
@@ -173,6 +174,7 @@ type sStats struct {
 	reopens                  int
 	vecServed, vecDeclined   int
 	vecTieDiffers            bool
+	wide                     bool
 	indexedCrit              bool
 	skippingCrit             bool
 	selective                bool
@@ -202,10 +204,20 @@ func runStreamHistory(x *verifkit.Ctx, c sCase) (sStats, error) {
 		return st, err
 	}
 	defer idx.close()
+	wideSeq := 0
 	written := map[string]sElem{} // stored id -> element
 	var all []sElem
 	for i, op := range c.Ops {
 		what := fmt.Sprintf("op %d (%s)", i, op.Kind)
+		if op.Kind == "wide" {
+			// > 128 KiB of block metadata in one part: several primary blocks
+			op = sOp{Kind: "write"}
+			for k := 0; k < c.Ops[i].WideN; k++ {
+				wideSeq++
+				op.Elems = append(op.Elems, sElem{Svc: 100 + k, ID: 1000000 + wideSeq, T: int64(k % 50), Status: "ok", Code: int64(k % 7), Dur: int64(k % 11), LabelsNl: true})
+			}
+			st.wide = true
+		}
 		switch op.Kind {
 		case "write":
 			base.write(op.Elems)
@@ -437,7 +449,7 @@ func runStreamHistory(x *verifkit.Ctx, c sCase) (sStats, error) {
 
 var (
 	sStatuses = []string{"ok", "err", "warn", "ok2"}
-	sLabels   = []string{"a", "b", "c", "d"}
+	sLabels   = []string{"a", "b", "c", "d", "a|b", "x\\y"} // incl. the array delimiter and escape bytes
 	sCodes    = []int64{0, 1, 2, 3, 200, 404, 500, -1}
 )
 
@@ -553,6 +565,9 @@ func (q *sQuery) needsTagFilter(cfg sIndexCfg) bool {
 func (c sCase) elements() (all []sElem) {
 	for _, op := range c.Ops {
 		all = append(all, op.Elems...)
+		for k := 0; k < op.WideN; k++ {
+			all = append(all, sElem{Svc: 100 + k, Status: "ok"})
+		}
 	}
 	return
 }
@@ -661,6 +676,17 @@ func genStreamCase(t *rapid.T, fixedCfg *sIndexCfg) sCase {
 			c.Ops = append(c.Ops, sOp{Kind: "query", Query: genSQuery(t, c.Cfg)})
 		}
 	}
+	if rapid.IntRange(0, 11).Draw(t, "wide") == 0 {
+		// one or two wide batches (each its own part), flushed and perhaps merged, then read back in full
+		nw := rapid.IntRange(1, 2).Draw(t, "nwide")
+		for w := 0; w < nw; w++ {
+			c.Ops = append(c.Ops, sOp{Kind: "wide", WideN: rapid.IntRange(2700, 3400).Draw(t, "widen")}, sOp{Kind: "flush"})
+		}
+		if rapid.Bool().Draw(t, "widemerge") {
+			c.Ops = append(c.Ops, sOp{Kind: "merge", Pick: []int{0, 1, 2, 3, 4, 5}})
+		}
+		c.Ops = append(c.Ops, sOp{Kind: "query", Query: &sQuery{From: 0, To: 3 * 3600 * 1000, Order: "time", Limit: 20, Offset: rapid.IntRange(0, 50).Draw(t, "wideoff")}})
+	}
 	nq := rapid.IntRange(1, 4).Draw(t, "queries")
 	for i := 0; i < nq; i++ {
 		c.Ops = append(c.Ops, sOp{Kind: "query", Query: genSQuery(t, c.Cfg)})
@@ -713,6 +739,7 @@ func sLabel(x *verifkit.Ctx, st sStats) {
 	x.LabelIf(st.flushes > 0, "flush")
 	x.LabelIf(st.multiSegment, "two segments")
 	x.LabelIf(st.reopens > 0, "reopen")
+	x.LabelIf(st.wide, "part with several primary blocks")
 }
 
 func TestVerifStreamC09(t *testing.T) {
